@@ -1820,7 +1820,7 @@ Qed.
 
 (* entries of the generalised one-electron model are linear in the contracted cube *)
 Lemma one_elec_point_gen_lin Ma Mb ctr ctr1 ctr2 c1 c2 sa sb ma ia mb ib :
-  (forall ma mb x y z, ctr ma mb x y z = c1 * ctr1 ma mb x y z + c2 * ctr2 ma mb x y z) ->
+  (forall x y z, ctr ma mb x y z = c1 * ctr1 ma mb x y z + c2 * ctr2 ma mb x y z) ->
   ma < Ma -> ia < ncomp sa -> mb < Mb -> ib < ncomp sb ->
   nth4' ma ia mb ib (one_elec_point_gen Ma Mb ctr sa sb)
   = c1 * nth4' ma ia mb ib (one_elec_point_gen Ma Mb ctr1 sa sb)
@@ -1946,7 +1946,7 @@ Proof.
 Qed.
 
 Lemma eri_block_gen_lin M1 M2 M3 M4 ctr ctr1 ctr2 c1 c2 s1 s2 s3 s4 m1 i1 m2 i2 m3 i3 m4 i4 :
-  (forall m1 m2 m3 m4 cx cy cz ax ay az,
+  (forall cx cy cz ax ay az,
      ctr m1 m2 m3 m4 cx cy cz ax ay az
      = c1 * ctr1 m1 m2 m3 m4 cx cy cz ax ay az + c2 * ctr2 m1 m2 m3 m4 cx cy cz ax ay az) ->
   m1 < M1 -> i1 < ncomp s1 -> m2 < M2 -> i2 < ncomp s2 -> m3 < M3 -> i3 < ncomp s3 -> m4 < M4 -> i4 < ncomp s4 ->
@@ -1963,19 +1963,22 @@ Proof.
   rewrite !(nth_mk M1 _ _ m1) by exact H1. rewrite !(nth_mk M2 _ _ m2) by exact H2.
   rewrite !(nth_mk M3 _ _ m3) by exact H3. rewrite !(nth_mk M4 _ _ m4) by exact H4.
   rewrite (eri_channel_lin _ _ _ _ _ _ _ _ _ _ _ _ (ctr m1 m2 m3 m4) (ctr1 m1 m2 m3 m4) (ctr2 m1 m2 m3 m4) c1 c2
-             i3 i4 _ _ _ (H m1 m2 m3 m4)).
+             i3 i4 _ _ _ H).
   ring.
 Qed.
 
-(* a coefficient matrix whose contraction sums are the combination c1 x (sums of C1) + c2 x (sums of C2) *)
-Definition sum_lin (c1 c2 : F) (p p1 p2 : list (@prim F)) : Prop :=
-  forall f m, ssum f p m = c1 * ssum f p1 m + c2 * ssum f p2 m.
+(* a coefficient matrix whose contraction sums for column m are c1 x (sums of C1) + c2 x (sums of C2) *)
+Definition sum_lin (m : nat) (c1 c2 : F) (p p1 p2 : list (@prim F)) : Prop :=
+  forall f, ssum f p m = c1 * ssum f p1 m + c2 * ssum f p2 m.
 
-Lemma sum_lin_add es C1 C2 : same_shape C1 C2 ->
-  sum_lin 1 1 (combine es (rows_add C1 C2)) (combine es C1) (combine es C2).
-Proof. intros H f m. rewrite (ssum_add _ _ _ _ _ H). ring. Qed.
-Lemma sum_lin_scale es k C : sum_lin k 0 (combine es (rows_scale k C)) (combine es C) (combine es C).
-Proof. intros f m. rewrite ssum_scale. ring. Qed.
+Lemma sum_lin_add m es C1 C2 : same_shape C1 C2 ->
+  sum_lin m 1 1 (combine es (rows_add C1 C2)) (combine es C1) (combine es C2).
+Proof. intros H f. rewrite (ssum_add _ _ _ _ _ H). ring. Qed.
+Lemma sum_lin_scale m es k C : sum_lin m k 0 (combine es (rows_scale k C)) (combine es C) (combine es C).
+Proof. intros f. rewrite ssum_scale. ring. Qed.
+Lemma sum_lin_scale_col m es m0 k C :
+  sum_lin m (colfac m0 k m) 0 (combine es (scale_col_rows m0 k C)) (combine es C) (combine es C).
+Proof. intros f. rewrite ssum_scale_col. ring. Qed.
 
 Lemma ssum_flin c1 c2 f f1 f2 p m : (forall a, f a = c1 * f1 a + c2 * f2 a) ->
   ssum f p m = c1 * ssum f1 p m + c2 * ssum f2 p m.
@@ -1986,13 +1989,13 @@ Qed.
 Section QL.
 Variables (E : F -> F -> F -> F -> F) (N1 N2 N3 N4 : F -> F) (c1 c2 : F).
 Notation Q := (qsum E N1 N2 N3 N4).
-Lemma qsum_lin_1 p p' p'' p2 p3 p4 m1 m2 m3 m4 : sum_lin c1 c2 p p' p'' ->
+Lemma qsum_lin_1 p p' p'' p2 p3 p4 m1 m2 m3 m4 : sum_lin m1 c1 c2 p p' p'' ->
   Q p p2 p3 p4 m1 m2 m3 m4 = c1 * Q p' p2 p3 p4 m1 m2 m3 m4 + c2 * Q p'' p2 p3 p4 m1 m2 m3 m4.
 Proof. intros H. unfold qsum. apply H. Qed.
-Lemma qsum_lin_2 p1 p p' p'' p3 p4 m1 m2 m3 m4 : sum_lin c1 c2 p p' p'' ->
+Lemma qsum_lin_2 p1 p p' p'' p3 p4 m1 m2 m3 m4 : sum_lin m2 c1 c2 p p' p'' ->
   Q p1 p p3 p4 m1 m2 m3 m4 = c1 * Q p1 p' p3 p4 m1 m2 m3 m4 + c2 * Q p1 p'' p3 p4 m1 m2 m3 m4.
 Proof. intros H. unfold qsum. apply ssum_flin. intros a. rewrite H. ring. Qed.
-Lemma qsum_lin_3 p1 p2 p p' p'' p4 m1 m2 m3 m4 : sum_lin c1 c2 p p' p'' ->
+Lemma qsum_lin_3 p1 p2 p p' p'' p4 m1 m2 m3 m4 : sum_lin m3 c1 c2 p p' p'' ->
   Q p1 p2 p p4 m1 m2 m3 m4 = c1 * Q p1 p2 p' p4 m1 m2 m3 m4 + c2 * Q p1 p2 p'' p4 m1 m2 m3 m4.
 Proof.
   intros H. unfold qsum. apply ssum_flin. intros a.
@@ -2001,7 +2004,7 @@ Proof.
   - ring.
   - intros b. rewrite H. ring.
 Qed.
-Lemma qsum_lin_4 p1 p2 p3 p p' p'' m1 m2 m3 m4 : sum_lin c1 c2 p p' p'' ->
+Lemma qsum_lin_4 p1 p2 p3 p p' p'' m1 m2 m3 m4 : sum_lin m4 c1 c2 p p' p'' ->
   Q p1 p2 p3 p m1 m2 m3 m4 = c1 * Q p1 p2 p3 p' m1 m2 m3 m4 + c2 * Q p1 p2 p3 p'' m1 m2 m3 m4.
 Proof.
   intros H. unfold qsum. apply ssum_flin. intros a.
@@ -2027,7 +2030,7 @@ Hypothesis Hi3 : i3 < ncomp s3. Hypothesis Hi4 : i4 < ncomp s4.
 Notation N8 := (nth8 m1 i1 m2 i2 m3 i3 m4 i4).
 
 Theorem eri_block_lin_1 :
-  sum_lin c1 c2 (combine (s_exps s1) C) (combine (s_exps s1) C1) (combine (s_exps s1) C2) ->
+  sum_lin m1 c1 c2 (combine (s_exps s1) C) (combine (s_exps s1) C1) (combine (s_exps s1) C2) ->
   nseg (set_coeffs s1 C1) = nseg (set_coeffs s1 C) -> nseg (set_coeffs s1 C2) = nseg (set_coeffs s1 C) ->
   m1 < nseg (set_coeffs s1 C) -> m2 < nseg s2 -> m3 < nseg s3 -> m4 < nseg s4 ->
   N8 (eri_block K (set_coeffs s1 C) s2 s3 s4)
@@ -2041,7 +2044,7 @@ Proof.
 Qed.
 
 Theorem eri_block_lin_2 :
-  sum_lin c1 c2 (combine (s_exps s2) C) (combine (s_exps s2) C1) (combine (s_exps s2) C2) ->
+  sum_lin m2 c1 c2 (combine (s_exps s2) C) (combine (s_exps s2) C1) (combine (s_exps s2) C2) ->
   nseg (set_coeffs s2 C1) = nseg (set_coeffs s2 C) -> nseg (set_coeffs s2 C2) = nseg (set_coeffs s2 C) ->
   m1 < nseg s1 -> m2 < nseg (set_coeffs s2 C) -> m3 < nseg s3 -> m4 < nseg s4 ->
   N8 (eri_block K s1 (set_coeffs s2 C) s3 s4)
@@ -2055,7 +2058,7 @@ Proof.
 Qed.
 
 Theorem eri_block_lin_3 :
-  sum_lin c1 c2 (combine (s_exps s3) C) (combine (s_exps s3) C1) (combine (s_exps s3) C2) ->
+  sum_lin m3 c1 c2 (combine (s_exps s3) C) (combine (s_exps s3) C1) (combine (s_exps s3) C2) ->
   nseg (set_coeffs s3 C1) = nseg (set_coeffs s3 C) -> nseg (set_coeffs s3 C2) = nseg (set_coeffs s3 C) ->
   m1 < nseg s1 -> m2 < nseg s2 -> m3 < nseg (set_coeffs s3 C) -> m4 < nseg s4 ->
   N8 (eri_block K s1 s2 (set_coeffs s3 C) s4)
@@ -2069,7 +2072,7 @@ Proof.
 Qed.
 
 Theorem eri_block_lin_4 :
-  sum_lin c1 c2 (combine (s_exps s4) C) (combine (s_exps s4) C1) (combine (s_exps s4) C2) ->
+  sum_lin m4 c1 c2 (combine (s_exps s4) C) (combine (s_exps s4) C1) (combine (s_exps s4) C2) ->
   nseg (set_coeffs s4 C1) = nseg (set_coeffs s4 C) -> nseg (set_coeffs s4 C2) = nseg (set_coeffs s4 C) ->
   m1 < nseg s1 -> m2 < nseg s2 -> m3 < nseg s3 -> m4 < nseg (set_coeffs s4 C) ->
   N8 (eri_block K s1 s2 s3 (set_coeffs s4 C))
@@ -2082,6 +2085,148 @@ Proof.
   apply eri_block_gen_lin; try assumption. intros. unfold eri_ctr. now apply qsum_lin_4.
 Qed.
 End ERILin.
+
+
+(* PointChargeIntegral block entries are -q x (possibly transposed) one-electron entries: its linearity
+   and column-scale laws are those of [one_elec_point] *)
+Lemma pc_block_entry points sa sb ma ia mb ib :
+  ma < nseg sa -> ia < ncomp sa -> mb < nseg sb -> ib < ncomp sb ->
+  nth ib (nth mb (nth ia (nth ma (point_charge_block K points sa sb) []) []) []) []
+  = map (fun '(cx, cy, cz, q) =>
+           (- q) * (if s_l sa <? s_l sb then nth4' mb ib ma ia (one_elec_point K cx cy cz sb sa)
+                    else nth4' ma ia mb ib (one_elec_point K cx cy cz sa sb))) points.
+Proof.
+  intros Hma Hia Hmb Hib. unfold point_charge_block, ncomp in *. cbv zeta.
+  rewrite nth_mk by exact Hma. rewrite nth_mk by exact Hia. rewrite nth_mk by exact Hmb.
+  rewrite nth_mk by exact Hib. rewrite map_map. apply map_ext. intros [[[cx cy] cz] q].
+  destruct (s_l sa <? s_l sb); reflexivity.
+Qed.
+
+(* 5a for the one-electron kernel *)
+Theorem oe_scale_col_unnormalised_a Cx Cy Cz sa sb m0 k ma ia mb ib :
+  ma < nseg sa -> ia < ncomp sa -> mb < nseg sb -> ib < ncomp sb ->
+  nth4' ma ia mb ib (one_elec_point K Cx Cy Cz (scale_col sa m0 k) sb)
+  = colfac m0 k ma * nth4' ma ia mb ib (one_elec_point K Cx Cy Cz sa sb).
+Proof.
+  intros Hma Hia Hmb Hib. rewrite !one_elec_point_form, nseg_scale_col. unfold scale_col at 2. rewrite prims_set_coeffs.
+  change (one_elec_point_gen ?a ?b ?c (scale_col sa m0 k) sb) with (one_elec_point_gen a b c sa sb).
+  change (oe_ctr Cx Cy Cz (scale_col sa m0 k) sb) with (oe_ctr Cx Cy Cz sa sb).
+  change (s_exps (set_coeffs sa ?C)) with (s_exps sa).
+  rewrite (one_elec_point_gen_lin _ _ _ (oe_ctr Cx Cy Cz sa sb (prims sa) (prims sb))
+             (oe_ctr Cx Cy Cz sa sb (prims sa) (prims sb)) (colfac m0 k ma) 0 sa sb ma ia mb ib); try assumption.
+  - ring.
+  - intros. unfold oe_ctr, dsum. unfold ssum at 1 3 5. rewrite <- !fsum_map_scale, <- fsum_map_add.
+    apply fsum_map_ext. intros q. rewrite ssum_scale_col. fold (prims sa). ring.
+Qed.
+
+Theorem oe_scale_col_unnormalised_b Cx Cy Cz sa sb m0 k ma ia mb ib :
+  ma < nseg sa -> ia < ncomp sa -> mb < nseg sb -> ib < ncomp sb ->
+  nth4' ma ia mb ib (one_elec_point K Cx Cy Cz sa (scale_col sb m0 k))
+  = colfac m0 k mb * nth4' ma ia mb ib (one_elec_point K Cx Cy Cz sa sb).
+Proof.
+  intros Hma Hia Hmb Hib. rewrite !one_elec_point_form, nseg_scale_col. unfold scale_col at 2. rewrite prims_set_coeffs.
+  change (one_elec_point_gen ?a ?b ?c sa (scale_col sb m0 k)) with (one_elec_point_gen a b c sa sb).
+  change (oe_ctr Cx Cy Cz sa (scale_col sb m0 k)) with (oe_ctr Cx Cy Cz sa sb).
+  change (s_exps (set_coeffs sb ?C)) with (s_exps sb).
+  rewrite (one_elec_point_gen_lin _ _ _ (oe_ctr Cx Cy Cz sa sb (prims sa) (prims sb))
+             (oe_ctr Cx Cy Cz sa sb (prims sa) (prims sb)) (colfac m0 k mb) 0 sa sb ma ia mb ib); try assumption.
+  - ring.
+  - intros. unfold oe_ctr, dsum. rewrite ssum_scale_col. fold (prims sb). ring.
+Qed.
+
+(* 5 for the one-electron kernel: contraction-normalised entries *)
+Definition oe_nentry Cx Cy Cz (sa sb : shell F) (ma ia mb ib : nat) : F :=
+  (ncget (norm_cont K sa) ma ia * ncget (norm_cont K sb) mb ib) * nth4' ma ia mb ib (one_elec_point K Cx Cy Cz sa sb).
+
+Theorem oe_column_scale_a Cx Cy Cz sa sb m0 k kabs ma ia mb ib :
+  (forall x, fapx K x = x) -> scale_hyps sa m0 k kabs ->
+  ma < nseg sa -> ia < ncomp sa -> mb < nseg sb -> ib < ncomp sb ->
+  oe_nentry Cx Cy Cz (scale_col sa m0 k) sb ma ia mb ib = colfac m0 (k / kabs) ma * oe_nentry Cx Cy Cz sa sb ma ia mb ib.
+Proof.
+  intros Hapx H Hma Hia Hmb Hib. unfold oe_nentry. rewrite oe_scale_col_unnormalised_a by assumption.
+  rewrite (ncget_scale_col sa m0 k kabs ma ia Hapx H Hma Hia).
+  destruct H as [H _]. unfold colfac. destruct (Nat.eqb ma m0); field; auto.
+Qed.
+
+Theorem oe_column_scale_b Cx Cy Cz sa sb m0 k kabs ma ia mb ib :
+  (forall x, fapx K x = x) -> scale_hyps sb m0 k kabs ->
+  ma < nseg sa -> ia < ncomp sa -> mb < nseg sb -> ib < ncomp sb ->
+  oe_nentry Cx Cy Cz sa (scale_col sb m0 k) ma ia mb ib = colfac m0 (k / kabs) mb * oe_nentry Cx Cy Cz sa sb ma ia mb ib.
+Proof.
+  intros Hapx H Hma Hia Hmb Hib. unfold oe_nentry. rewrite oe_scale_col_unnormalised_b by assumption.
+  rewrite (ncget_scale_col sb m0 k kabs mb ib Hapx H Hmb Hib).
+  destruct H as [H _]. unfold colfac. destruct (Nat.eqb mb m0); field; auto.
+Qed.
+
+(* 5 for the electron-repulsion block: contraction-normalised entries, a column of any one shell scaled *)
+Definition eri_nentry (s1 s2 s3 s4 : shell F) (m1 i1 m2 i2 m3 i3 m4 i4 : nat) : F :=
+  (ncget (norm_cont K s1) m1 i1 * ncget (norm_cont K s2) m2 i2 * ncget (norm_cont K s3) m3 i3
+   * ncget (norm_cont K s4) m4 i4) * nth8 m1 i1 m2 i2 m3 i3 m4 i4 (eri_block K s1 s2 s3 s4).
+
+Section ERIScale.
+Variables (s1 s2 s3 s4 : shell F) (m0 : nat) (k kabs : F) (m1 i1 m2 i2 m3 i3 m4 i4 : nat).
+Hypothesis Hapx : forall x, fapx K x = x.
+Hypothesis H1 : m1 < nseg s1. Hypothesis Hi1 : i1 < ncomp s1.
+Hypothesis H2 : m2 < nseg s2. Hypothesis Hi2 : i2 < ncomp s2.
+Hypothesis H3 : m3 < nseg s3. Hypothesis Hi3 : i3 < ncomp s3.
+Hypothesis H4 : m4 < nseg s4. Hypothesis Hi4 : i4 < ncomp s4.
+
+Theorem eri_column_scale_1 : scale_hyps s1 m0 k kabs ->
+  eri_nentry (scale_col s1 m0 k) s2 s3 s4 m1 i1 m2 i2 m3 i3 m4 i4
+  = colfac m0 (k / kabs) m1 * eri_nentry s1 s2 s3 s4 m1 i1 m2 i2 m3 i3 m4 i4.
+Proof.
+  intros H. unfold eri_nentry, scale_col at 2.
+  rewrite (eri_block_lin_1 s1 s2 s3 s4 _ (s_coeffs s1) (s_coeffs s1) (colfac m0 k m1) 0 m1 i1 m2 i2 m3 i3 m4 i4
+             Hi1 Hi2 Hi3 Hi4 (sum_lin_scale_col m1 (s_exps s1) m0 k (s_coeffs s1)));
+    try (rewrite ?(nseg_scale_col s1 m0 k : nseg (set_coeffs s1 (scale_col_rows m0 k (s_coeffs s1))) = nseg s1);
+         solve [assumption | now destruct s1]).
+  replace (set_coeffs s1 (s_coeffs s1)) with s1 by (now destruct s1).
+  rewrite (ncget_scale_col s1 m0 k kabs m1 i1 Hapx H H1 Hi1).
+  destruct H as [H _]. unfold colfac. destruct (Nat.eqb m1 m0); field; auto.
+Qed.
+
+Theorem eri_column_scale_2 : scale_hyps s2 m0 k kabs ->
+  eri_nentry s1 (scale_col s2 m0 k) s3 s4 m1 i1 m2 i2 m3 i3 m4 i4
+  = colfac m0 (k / kabs) m2 * eri_nentry s1 s2 s3 s4 m1 i1 m2 i2 m3 i3 m4 i4.
+Proof.
+  intros H. unfold eri_nentry, scale_col at 2.
+  rewrite (eri_block_lin_2 s1 s2 s3 s4 _ (s_coeffs s2) (s_coeffs s2) (colfac m0 k m2) 0 m1 i1 m2 i2 m3 i3 m4 i4
+             Hi1 Hi2 Hi3 Hi4 (sum_lin_scale_col m2 (s_exps s2) m0 k (s_coeffs s2)));
+    try (rewrite ?(nseg_scale_col s2 m0 k : nseg (set_coeffs s2 (scale_col_rows m0 k (s_coeffs s2))) = nseg s2);
+         solve [assumption | now destruct s2]).
+  replace (set_coeffs s2 (s_coeffs s2)) with s2 by (now destruct s2).
+  rewrite (ncget_scale_col s2 m0 k kabs m2 i2 Hapx H H2 Hi2).
+  destruct H as [H _]. unfold colfac. destruct (Nat.eqb m2 m0); field; auto.
+Qed.
+
+Theorem eri_column_scale_3 : scale_hyps s3 m0 k kabs ->
+  eri_nentry s1 s2 (scale_col s3 m0 k) s4 m1 i1 m2 i2 m3 i3 m4 i4
+  = colfac m0 (k / kabs) m3 * eri_nentry s1 s2 s3 s4 m1 i1 m2 i2 m3 i3 m4 i4.
+Proof.
+  intros H. unfold eri_nentry, scale_col at 2.
+  rewrite (eri_block_lin_3 s1 s2 s3 s4 _ (s_coeffs s3) (s_coeffs s3) (colfac m0 k m3) 0 m1 i1 m2 i2 m3 i3 m4 i4
+             Hi1 Hi2 Hi3 Hi4 (sum_lin_scale_col m3 (s_exps s3) m0 k (s_coeffs s3)));
+    try (rewrite ?(nseg_scale_col s3 m0 k : nseg (set_coeffs s3 (scale_col_rows m0 k (s_coeffs s3))) = nseg s3);
+         solve [assumption | now destruct s3]).
+  replace (set_coeffs s3 (s_coeffs s3)) with s3 by (now destruct s3).
+  rewrite (ncget_scale_col s3 m0 k kabs m3 i3 Hapx H H3 Hi3).
+  destruct H as [H _]. unfold colfac. destruct (Nat.eqb m3 m0); field; auto.
+Qed.
+
+Theorem eri_column_scale_4 : scale_hyps s4 m0 k kabs ->
+  eri_nentry s1 s2 s3 (scale_col s4 m0 k) m1 i1 m2 i2 m3 i3 m4 i4
+  = colfac m0 (k / kabs) m4 * eri_nentry s1 s2 s3 s4 m1 i1 m2 i2 m3 i3 m4 i4.
+Proof.
+  intros H. unfold eri_nentry, scale_col at 2.
+  rewrite (eri_block_lin_4 s1 s2 s3 s4 _ (s_coeffs s4) (s_coeffs s4) (colfac m0 k m4) 0 m1 i1 m2 i2 m3 i3 m4 i4
+             Hi1 Hi2 Hi3 Hi4 (sum_lin_scale_col m4 (s_exps s4) m0 k (s_coeffs s4)));
+    try (rewrite ?(nseg_scale_col s4 m0 k : nseg (set_coeffs s4 (scale_col_rows m0 k (s_coeffs s4))) = nseg s4);
+         solve [assumption | now destruct s4]).
+  replace (set_coeffs s4 (s_coeffs s4)) with s4 by (now destruct s4).
+  rewrite (ncget_scale_col s4 m0 k kabs m4 i4 Hapx H H4 Hi4).
+  destruct H as [H _]. unfold colfac. destruct (Nat.eqb m4 m0); field; auto.
+Qed.
+End ERIScale.
 
 End P.
 
